@@ -163,7 +163,7 @@ def run(ctx, chk):
 
         # provided Iterator methods (nth, count, last, fold, ...) must not be overridden: skip/step_by/... are built on them
         for sre, nm in ((SL + r"SeqIter<A>$", "SeqIter"), (SL + r"RevIter<A>$", "RevIter"), (SL + r"SeqChunks<A>$", "SeqChunks")):
-            an.no_overrides(chk, cfg.bio, "I-override", nm, ITER, sre, ("next",), tolerated=("size_hint",))
+            an.no_overrides(chk, cfg.bio, "I-override", nm, ITER, sre, ("next",))
         glue(chk, cfg)
     chk.floor("iterator transition rows", chk.rule_sites.get("G02/guard", 0) + chk.rule_sites.get("G03/guard", 0) + chk.rule_sites.get("G04/guard", 0), 3 * len(chk.configs))
 
